@@ -15,7 +15,9 @@ Vals == {"ok", "max", "over"}
 Ends == {"none", "ok"}
 Filters == {"none", "min_mod", "max_mod", "min_create", "max_create"}
 Nested == {"none", "put_ok", "put_emptykey", "put_overkey", "put_overval", "del_emptykey", "del_overkey", "range_ok", "emptyoneof",
-           "range_neglimit", "range_ko_co", "range_overkey"}
+           "range_neglimit", "range_ko_co", "range_overkey",
+           \* an operation with an EMPTY oneof as the only operation, and after a read: a transaction without any write
+           "emptyoneof_alone", "emptyoneof_after_range"}
 Branches == {"executed", "other"}
 
 \* the universe of request classes (fields that do not apply to an API are fixed to their neutral class)
@@ -55,6 +57,8 @@ Violations(r) ==
 Open(r) == \/ r.api = "Txn" /\ r.branch = "other" /\ r.nested \in {"put_emptykey", "put_overkey", "put_overval", "del_emptykey", "del_overkey"}
            \* malformed READS nested in a transaction create no record: refusing or serving them is both admissible (the server must survive)
            \/ r.api = "Txn" /\ r.nested \in {"range_neglimit", "range_ko_co", "range_overkey"}
+           \* an operation that names nothing, in a transaction that writes nothing: refused or served as a no-op
+           \/ r.api = "Txn" /\ r.nested \in {"emptyoneof_alone", "emptyoneof_after_range"}
 
 Admissible(r) == IF Violations(r) = {} THEN (IF Open(r) THEN {"OK"} \cup NonOK ELSE {"OK"})
                  ELSE UNION Violations(r)
